@@ -115,6 +115,7 @@ pub fn run(run: &Run) {
     run.explore(&u2::LenUniverse { presents: u2::Presents::AcceptedStride(1), name: "U2-len/accepted" });
     run.explore(&u2::sig_universe());
     run.explore(&u2::addr_universe());
+    run.explore(&u2::anybyte_universe());
     run.explore(&u2::byte_universe(run.tier.pick(3, 5)));
     run.explore(&super::c11::EmbeddedTlv { n: run.tier.pick(6, 8) });
     run.explore(&super::c11::EmbeddedText { n: run.tier.pick(6, 8) });
